@@ -204,6 +204,24 @@ type ErrSpec struct {
 	Meta    []KV         `json:"meta,omitempty"`
 	CtxErr  bool         `json:"ctx_err,omitempty"` // return ctx.Err() (after waiting for ctx.Done)
 	Literal string       `json:"literal,omitempty"` // "canceled" | "deadline": return the context package's sentinel itself
+	// Wrap: how the coded error is handed over: "" (itself), "w"
+	// (fmt.Errorf("…: %w", e)), "join" (errors.Join(e, other)), "w2"
+	// (fmt.Errorf("%w … %w", e, other)). errors.As finds it in every case.
+	Wrap string `json:"wrap,omitempty"`
+	// Cause: the coded error's underlying error wraps a context error
+	// ("canceled" | "deadline"), as when a sub-request of the handler timed out.
+	Cause string `json:"cause,omitempty"`
+}
+
+// WireMsg is the message the peer must see for a coded error.
+func (e *ErrSpec) WireMsg() string {
+	switch e.Cause {
+	case "canceled":
+		return e.Msg + ": " + context.Canceled.Error()
+	case "deadline":
+		return e.Msg + ": " + context.DeadlineExceeded.Error()
+	}
+	return e.Msg
 }
 
 func (e *ErrSpec) Build() error {
@@ -219,7 +237,14 @@ func (e *ErrSpec) Build() error {
 	if e.Plain {
 		return errors.New(e.Msg)
 	}
-	ce := connect.NewError(connect.Code(e.Code), errors.New(e.Msg))
+	underlying := errors.New(e.Msg)
+	switch e.Cause {
+	case "canceled":
+		underlying = fmt.Errorf("%s: %w", e.Msg, context.Canceled)
+	case "deadline":
+		underlying = fmt.Errorf("%s: %w", e.Msg, context.DeadlineExceeded)
+	}
+	ce := connect.NewError(connect.Code(e.Code), underlying)
 	for _, d := range e.Details {
 		a, err := anypb.New(d.Message())
 		if err != nil {
@@ -228,6 +253,14 @@ func (e *ErrSpec) Build() error {
 		ce.AddDetail(a)
 	}
 	ApplyKV(ce.Meta(), e.Meta)
+	switch e.Wrap {
+	case "w":
+		return fmt.Errorf("handler layer: %w", ce)
+	case "join":
+		return errors.Join(ce, errors.New("a second, uncoded error"))
+	case "w2":
+		return fmt.Errorf("%w (and %w)", ce, errors.New("a second, uncoded error"))
+	}
 	return ce
 }
 
